@@ -96,7 +96,10 @@ func collectDeclDependencies(d Decl) []string {
 	seen := make(map[string]bool)
 	var refs []string
 	add := func(name string) {
-		if name != "" && !seen[name] && !isBuiltinName(name) {
+		// Names that no module-scope declaration introduces are dropped by the caller
+		// (nameToIdx); predeclared names must not be filtered here, since a module may
+		// declare `const read = 1u;` or `const storage = 4u;` after their first use.
+		if name != "" && !seen[name] {
 			seen[name] = true
 			refs = append(refs, name)
 		}
